@@ -271,8 +271,30 @@ func check(c Case) (kind, what string) {
 		}
 		return k, fmt.Sprintf("Description() failed on a well-formed %s tag (%d records): %v", c.DescKind, len(c.Recs), derr)
 	}
+	// (Description() is deliberately NOT required to give the same string twice: with several English records the
+	// property allows any of them, and the library picks one by map iteration.)
+	// a profile read earlier must still describe itself correctly after this one has been read
+	if prevProfile != nil {
+		pd, perr := prevProfile.Description()
+		ok := perr == nil
+		if ok {
+			ok = false
+			for _, s := range prevSet {
+				if s == pd {
+					ok = true
+				}
+			}
+		}
+		pp := prevProfile
+		prevProfile, prevSet = nil, nil
+		_ = pp
+		if !ok {
+			return "stale-profile", fmt.Sprintf("the profile read before this one now describes itself as %q (error %v); allowed: %s", trunc(pd), perr, truncSet(prevSetCopy))
+		}
+	}
 	for _, s := range set {
 		if s == got {
+			prevProfile, prevSet, prevSetCopy = p, set, set
 			return "", ""
 		}
 	}
@@ -293,6 +315,10 @@ func check(c Case) (kind, what string) {
 	}
 	return k, fmt.Sprintf("Description() = %q; allowed: %s (kind %s, %d records, via %s)", trunc(got), truncSet(set), c.DescKind, len(c.Recs), c.Via)
 }
+
+// the previously read profile and its allowed descriptions (staleness check)
+var prevProfile *icc.Profile
+var prevSet, prevSetCopy []string
 
 func trunc(s string) string {
 	if len(s) > 60 {
